@@ -182,6 +182,31 @@ def main(argv=None):
                 known_hits.append((oid, kf[0]['witness']))
             else:
                 violations.append(rec)
+    # bounded stand-ins: same contract, native evaluation over generated inputs; never counted as discharged
+    from .contracts import CONTRACTS
+    for qn in driver.bounded_jobs(prop):
+        c = CONTRACTS[qn]
+        job = job_for(qn, None, 'search')
+        n = c.extra['bounded'].get('n', 1000) * (1 if tier == 'quick' else 10)
+        job['search'] = dict(n=n, seed=seed, hints=job['hints'])
+        r = native(job, timeout=600)
+        rec = dict(unit=qn, bound='%d generated inputs (seed %d)' % (n, seed), evaluations=r.get('tried', 0),
+                   distinct=r.get('distinct', 0), reason=c.notes)
+        bounded_units.append(rec)
+        if r.get('harness_error'):
+            errors.append('bounded stand-in for %s failed to run: %s' % (qn, r['harness_error'][-300:]))
+        elif r.get('hit'):
+            oid = '%s:%s:bounded.%s' % (prop, qn.split('afkak.', 1)[-1], r['hit']['run']['failed'][0])
+            v = dict(obligation=oid, path=0, note='bounded stand-in', solver='none (bounded)', smt_head=None, model=None,
+                     ladder=dict(kind='confirmed', rung='bounded-stand-in', inputs=r['hit']['inputs'], run=r['hit']['run']))
+            wit = witness_text(v)
+            kf = [k for k in known if k['prop'] == prop and k['obligation'] == oid and (k['witness'] == '*' or k['witness'] in wit)]
+            if kf:
+                known_hits.append((oid, kf[0]['witness']))
+            else:
+                violations.append(v)
+        elif r.get('tried', 0) == 0:
+            errors.append('bounded stand-in for %s evaluated zero inputs' % qn)
     rc = 0
     os.makedirs(os.path.join(VERIF, 'replays', prop), exist_ok=True)
     for oid, w in known_hits:
@@ -202,7 +227,7 @@ def main(argv=None):
     if rc == 0 and undecided:
         rc = 2
     write_evidence(prop, tier, seed, eng, funcs, n_obl, n_dis, by_backend, solver_time, undecided, errors, violations,
-                   known_hits, samples, covers_sat, covers_total, time.time() - t0, len(names))
+                   known_hits, samples, covers_sat, covers_total, time.time() - t0, len(names), bounded_units)
     for e in errors:
         print('CHECKER-FAILURE', e)
     for u in undecided:
@@ -221,7 +246,7 @@ def witness_text(rec):
 
 
 def write_evidence(prop, tier, seed, eng, funcs, n_obl, n_dis, by_backend, solver_time, undecided, errors, violations,
-                   known_hits, samples, covers_sat, covers_total, wall, distinct):
+                   known_hits, samples, covers_sat, covers_total, wall, distinct, bounded_units=()):
     from .contracts import CONTRACTS
     meta = PROP_META.get(prop, {})
     trusted = list(TRUSTED_BASE) + meta.get('trusted', [])
@@ -237,6 +262,7 @@ def write_evidence(prop, tier, seed, eng, funcs, n_obl, n_dis, by_backend, solve
             by_backend=by_backend, solver_time_s=round(solver_time, 3),
             covers_sat=covers_sat, covers_total=covers_total,
             undecided=undecided, checker_failures=errors,
+            bounded_units=list(bounded_units),
             violations=[dict(obligation=v['obligation'], confirmed=v['ladder']['kind'] == 'confirmed') for v in violations],
             known_findings=[dict(obligation=o, witness=w) for o, w in known_hits],
             samples=samples or [dict(note='no discharged post/invariant obligation to sample')],
